@@ -35,7 +35,7 @@ CONSTANTS
   MCTrunk = %(trunk)s
   MCExtra = %(extra)s
   MCMulti = %(multi)s
-  MCHow = {"cni"}
+  MCHow = %(how)s
   MCEnis = %(enis)s
   BadDesign = "%(bad)s"
   GenLen = 0
@@ -54,6 +54,16 @@ OBSERVE_SCEN = [
      dict(a="setup", p=2, i=0, dp="policy", fam="dual", eni=1, multi=False, extra=1, trunk=False, aset=0, peer=True, how="", **{"def": True}),
      dict(a="setup", p=2, i=0, dp="policy", fam="dual", eni=1, multi=False, extra=1, trunk=False, aset=0, peer=True, how="", **{"def": True}),
      dict(a="setup", p=2, i=0, dp="policy", fam="dual", eni=1, multi=False, extra=1, trunk=False, aset=0, peer=True, how="", **{"def": True}),
+     dict(a="teardown", p=1, how="cni"), dict(a="teardown", p=2, how="cni")],
+    # the fallback DEL leaves the pod's rules behind; its address then goes to a new pod on the other ENI, later on the same ENI
+    [dict(a="setup", p=1, i=0, dp="policy", fam="dual", eni=1, multi=False, extra=0, trunk=False, aset=0, peer=True, how="", keep=False, **{"def": True}),
+     dict(a="setup", p=2, i=0, dp="policy", fam="v4", eni=2, multi=False, extra=1, trunk=False, aset=0, peer=True, how="", keep=False, **{"def": True}),
+     dict(a="teardown", p=1, how="generic"),
+     dict(a="setup", p=1, i=0, dp="policy", fam="dual", eni=2, multi=False, extra=0, trunk=False, aset=0, peer=True, how="", keep=True, **{"def": True}),
+     dict(a="teardown", p=1, how="generic"),
+     dict(a="setup", p=1, i=0, dp="policy", fam="dual", eni=2, multi=False, extra=1, trunk=False, aset=0, peer=True, how="", keep=True, **{"def": True}),
+     dict(a="teardown", p=2, how="generic"),
+     dict(a="setup", p=2, i=0, dp="exclusive", fam="v4", eni=1, multi=False, extra=0, trunk=False, aset=0, peer=True, how="", keep=True, **{"def": True}),
      dict(a="teardown", p=1, how="cni"), dict(a="teardown", p=2, how="cni")]]
 
 
@@ -98,28 +108,34 @@ def mc_run(ctx, name, params, workers, expect_refused=False, timeout=1500):
 def model_checking(ctx):
     """Exhaustive runs of the bounded closure (reference design accepted, invariant implied) and of the seeded design errors."""
     q = ctx.quick
-    base = dict(ns="{0, 1, 2}", atts="{1, 2, 3, 4}", pods="{1, 2}", extra="{1}", multi="{FALSE, TRUE}", enis="{1, 2}", bad="", inv="InvC13")
+    base = dict(ns="{0, 1, 2}", atts="{1, 2, 3, 4}", pods="{1, 2}", extra="{1}", multi="{FALSE, TRUE}", enis="{1, 2}", bad="", inv="InvC13", how='{"cni"}')
     runs = [("all4", dict(base, dps='{"policy", "exclusive", "ipvlan", "vlan"}', fams='{"dual"}', trunk="{FALSE}"), 8 if q else 6),
-            ("fam", dict(base, dps='{"policy", "ipvlan"}', fams='{"v4", "v6", "dual"}', trunk="{FALSE, TRUE}", extra="{0, 1}", multi="{FALSE}", enis="{1}"), 4)]
+            ("fam", dict(base, dps='{"policy", "ipvlan"}', fams='{"v4", "v6", "dual"}', trunk="{FALSE, TRUE}", extra="{0, 1}", multi="{FALSE}", enis="{1}"), 4),
+            # fallback DEL (GenericTearDown alone) leaves rules behind; the slot's next pod may get the same address on either ENI
+            ("reuse", dict(base, dps='{"policy"}', fams='{"v4"}' if q else '{"dual"}', trunk="{FALSE}", multi="{FALSE}", how='{"cni", "generic"}'), 4)]
     if not q:
         runs += [("pods3", dict(base, ns="{0, 1, 2, 3}", atts="{1, 2, 3, 4, 5, 6}", pods="{1, 2, 3}", dps='{"policy"}', fams='{"v4", "dual"}', trunk="{FALSE}"), 6),
                  ("pods3x", dict(base, ns="{0, 1, 2, 3}", atts="{1, 2, 3, 4, 5, 6}", pods="{1, 2, 3}", dps='{"policy", "exclusive"}', fams='{"dual"}',
                                  trunk="{FALSE}", multi="{FALSE}"), 4),
                  ("mixed", dict(base, dps='{"policy", "exclusive", "ipvlan", "vlan"}', fams='{"v4", "v6"}', trunk="{FALSE, TRUE}", multi="{FALSE}", enis="{1}"), 4),
                  ("mixed2", dict(base, dps='{"policy", "exclusive"}', fams='{"v4", "v6"}', trunk="{FALSE, TRUE}", multi="{FALSE}"), 6),
-                 ("multi", dict(base, dps='{"policy", "exclusive", "ipvlan", "vlan"}', fams='{"v6"}', trunk="{FALSE}", multi="{TRUE}"), 4)]
+                 ("multi", dict(base, dps='{"policy", "exclusive", "ipvlan", "vlan"}', fams='{"v6"}', trunk="{FALSE}", multi="{TRUE}"), 4),
+                 ("reuse2", dict(base, dps='{"policy", "exclusive"}', fams='{"dual"}', trunk="{FALSE}", multi="{FALSE}", how='{"cni", "generic"}'), 6)]
     bad = [(b[0], dict(base, dps=b[1], fams=b[2], trunk=b[3], enis=b[4], bad=b[0], inv="BadRefused", multi="{FALSE}"), 1) for b in BAD_DESIGNS]
+    # a stale from-rule of a re-used address survives Setup: only manifests after a generic teardown and re-use on the other ENI
+    bad.append(("stale_from_rule_kept", dict(base, dps='{"policy"}', fams='{"dual"}', trunk="{FALSE}", bad="stale_from_rule_kept", inv="ReuseRefused",
+                                             multi="{FALSE}", how='{"generic"}'), 1))
     out = {}
     with concurrent.futures.ThreadPoolExecutor(max_workers=6) as ex:
         futs = {ex.submit(mc_run, ctx, n, p, w, False): n for n, p, w in runs}
         futs.update({ex.submit(mc_run, ctx, n, p, w, True): n for n, p, w in bad})
         for f in concurrent.futures.as_completed(futs):
             out[futs[f]] = f.result()
-    return sum(out[n].distinct for n, _, _ in runs), sum(out[n].generated for n, _, _ in runs), [b[0] for b in BAD_DESIGNS]
+    return sum(out[n].distinct for n, _, _ in runs), sum(out[n].generated for n, _, _ in runs), [b[0] for b in bad]
 
 
 def strip(t):
-    drop = ("seq", "scen", "level", "err", "what", "how", "step")
+    drop = ("seq", "scen", "level", "err", "what", "step")
     return [{k: v for k, v in r.items() if k not in drop} for r in t]
 
 
@@ -138,7 +154,19 @@ def tags(t):
         s.add("dp_" + c["dp"])
     if any(len(v) >= 2 for v in by_eni.values()): s.add("pods_share_eni")
     live = set()
+    left = {}     # address -> ENI it was last held on, after a generic teardown
+    held = {}
     for r in t:
+        if r["ev"] == "setup_d" and r["ok"] and r["cfg"]["dp"] == "policy":
+            key = json.dumps([r["cfg"]["ip4"], r["cfg"]["ip6"]])
+            if key in left:
+                s.add("address_reused_after_fallback_del")
+                if left.pop(key) != r["cfg"]["eni"]: s.add("address_reused_on_other_eni_after_fallback_del")
+            held[r["cfg"]["pod"]] = (key, r["cfg"]["eni"])
+        if r["ev"] == "teardown_d" and r.get("how") == "generic":
+            s.add("fallback_del_generic_only")
+            if r["pod"] in held: left[held[r["pod"]][0]] = held[r["pod"]][1]
+        if r["ev"] == "teardown_d": held.pop(r["pod"], None)
         if r["ev"] in ("setup_c", "setup_d") and r.get("ok", True): live.add(r["cfg"]["pod"])
         if r["ev"] == "setup_d" and not r["ok"]: s.add("setup_error")
         if r["ev"] == "teardown_d":
@@ -149,7 +177,7 @@ def tags(t):
     return s
 
 
-RELEVANT = {"pods_share_eni", "multi_network_second_interface", "trunk", "extra_routes", "dual_stack", "v6_only", "teardown_while_others_live"}
+RELEVANT = {"address_reused_after_fallback_del", "pods_share_eni", "multi_network_second_interface", "trunk", "extra_routes", "dual_stack", "v6_only", "teardown_while_others_live"}
 
 
 def run_harness(ctx, binary, test, scen_file, nrandom, nshard, netns, extra_env=None):
@@ -260,9 +288,12 @@ def run(ctx):
     try:
         gen = Sub(ctx, "gen")
         scen1 = tc.simulate(gen, "Datapath_mc", "Datapath_gen.cfg", num=200 if q else 2000, depth=6, timeout=900)
-        scen2 = tc.simulate(gen, "Datapath_mc", "Datapath_gen2.cfg", num=36 if q else 320, depth=11, timeout=900)
+        scen2 = tc.simulate(gen, "Datapath_mc", "Datapath_gen2.cfg", num=40 if q else 320, depth=12, timeout=900)
+        # address re-use after the fallback DEL: two veth pods, teardowns mostly generic, so most scenarios re-use an address
+        scen3 = tc.simulate(gen, "Datapath_mc", "Datapath_gen3.cfg", num=16 if q else 120, depth=10, timeout=900)
         gen.merge()
         with open(scen2, "a") as fh:
+            fh.write(open(scen3).read())
             for sc in OBSERVE_SCEN:
                 fh.write(json.dumps(sc) + "\n")
         bins = go_build_tests(ctx, [PKG])
@@ -305,8 +336,9 @@ def run(ctx):
                level2_teardowns=n_td, kernel_route_get_comparisons=n_rget, trace_tags=tagc, setup_or_teardown_errors_observed=errs,
                seeded_design_errors_refused=bad_names, exhaustive=False,
                rule="scenarios = TLC simulation of Datapath_mc.tla (setup of a pod interface with datapath x family x ENI x default route x "
-                    "multi-network x extra routes x trunk x address plan, second interface of a multi-network pod, teardown as CNI DEL or by "
-                    "PolicyRoute.Teardown alone) + seeded random scenarios with random address plans; level 1 = all four datapaths' "
+                    "multi-network x extra routes x trunk x address plan, second interface of a multi-network pod, teardown as CNI DEL, by "
+                    "PolicyRoute.Teardown alone or as the fallback DEL = GenericTearDown alone, a new pod given the address of the slot's "
+                    "previous pod on the same or the other ENI) + seeded random scenarios with random address plans; level 1 = all four datapaths' "
                     "generators judged with the model kernel, level 2 = real Setup/Teardown of policy-route veth and exclusive ENI in private "
                     "network namespaces judged on kernel dumps; non-trivial = trace carries one of %s; distinct by trace hash" % sorted(RELEVANT),
                samples=sample)
@@ -327,6 +359,8 @@ def run(ctx):
         "addresses) is not attributed to Setup; for the veth datapath the in-pod next hop may be the link-local stub or the configured gateway; "
         "per-ENI shared state (table 1000+ifindex, gateway host route, addresses on the ENI) is not pod-specific; a Setup/Teardown that returns "
         "an error promises nothing for that pod but must leave the others intact",
+        "the fallback DEL (utils.GenericTearDown alone, what cmdDel does when the daemon has no allocation record) is not required to remove the "
+        "pod's rules/routes; the leftovers stay in the state and every later Setup (same address on the same or another ENI) is judged with them",
         "level 1 applies a nic.Conf with the model's semantics of addr/route/rule replace; nic.Setup and the Ensure* helpers themselves run at level 2 only"])
 
 
